@@ -14,6 +14,8 @@ For every function, in source order (after gcc -E):
   * the list of `for (...)` headers becomes  Definition <fn>_q_loops : list string.
 spec["call_funcs"] = [[file, function, [callee, ...]], ...]: Definition <fn>_q_calls : list string, the calls the
 function makes to the listed callees, in source order, with their (whitespace-normalised) argument text.
+spec["stmt_text"] = [[file, function, [identifier, ...]], ...]: Definition <fn>_q_stmts : list string, the text of the
+assignments and conditions of the function that mention one of the identifiers, in source order.
 spec["cond_funcs"] = [[file, function, [callee, ...]], ...]: Definition <fn>_q_conds : list string, the text of the
 `if` conditions of the function that call one of the listed callees (how a lookup's result is tested).
 Sub-expressions are normalised first:  a[i] -> a_i,  a[ndims - 1] -> a_last,  a[j + 1] -> a_next,  p->f -> p_f,
@@ -21,7 +23,7 @@ d[i].f -> f,  d[j + 1].f -> f_next,  d[ndims - 1].f -> f_last,  *p -> p.  Casts 
 wrap-around meaning (H.P).  Anything that does not parse is listed in a comment, not silently dropped."""
 import re
 
-IDX = {"i": "", "j": "", "k": "", "ndims - 1": "_last", "j + 1": "_next", "i + 1": "_next"}
+IDX = {"i": "", "j": "", "k": "", "ndims - 1": "_last", "j + 1": "_next", "i + 1": "_next", "0": "_0", "1": "_1"}
 
 
 def norm(e):
@@ -145,6 +147,19 @@ def emit(repo, spec, H):
             calls.append("%s(%s)" % (m.group(1), args))
         lines.append("(* %s: calls of %s to %s, in source order *)" % (f, fn, ", ".join(callees)))
         lines.append("Definition %s_q_calls : list string := [%s]." % (fn, ";\n  ".join('"%s"%%string' % c.replace('"', "'") for c in calls)))
+        lines.append("")
+    # statements (assignments and conditions) of a function that mention one of the given identifiers, as normalised
+    # text in source order: pins the ORDER of bookkeeping statements and keeps sibling conditions comparable
+    for f, fn, idents in spec.get("stmt_text", []):
+        txt = H.src(repo, f)
+        body = H.func_body(txt, fn)
+        out = []
+        for it in split_top(body):
+            t = " ".join((it[1] if it[0] != "asg" else "%s %s= %s" % (it[1], it[2], it[3])).split())
+            if it[0] in ("if", "asg", "while", "for") and any(re.search(r"\b%s\b" % re.escape(x), t) for x in idents):
+                out.append(("if " if it[0] == "if" else "") + t)
+        lines.append("(* %s: statements of %s mentioning %s, in source order *)" % (f, fn, ", ".join(idents)))
+        lines.append("Definition %s_q_stmts : list string := [%s]." % (fn, ";\n  ".join('"%s"%%string' % c.replace('"', "'") for c in out)))
         lines.append("")
     # conditions (if / else-if) that mention one of the named callees, as normalised text, in source order
     for f, fn, callees in spec.get("cond_funcs", []):
